@@ -415,4 +415,204 @@ Section Bridge.
       { unfold sort_keys. apply sort_u_In; [apply key_eqb_eq|]. left. reflexivity. }
       unfold sort_keys in Hin. rewrite H in Hin. destruct Hin.
   Qed.
+
+  (* -------------------------------------------------------------------------------------------- *)
+  (* nested -> 3-D array (all columns nested: the np.stack branch) *)
+
+  Lemma count_true_repeat k : count_true (repeat true k) = length (repeat true k).
+  Proof. unfold count_true. induction k as [|k IH]; [reflexivity|]. cbn. rewrite IH. reflexivity. Qed.
+
+  Lemma wf_nested_frame n c T x :
+    wf_nested_ n c T x ->
+    gen_is_nested_dataframe (frame_of_nested x) = true /\
+    gen_are_columns_nested (frame_of_nested x) = repeat true c.
+  Proof.
+    intros [Hwf Hc]. rewrite bridge_is_nested_dataframe, bridge_are_columns_nested.
+    apply (nested_frames_are_nested n c T x Hwf Hc).
+  Qed.
+
+  Lemma bridge_from_nested_to_3d_numpy n c T x :
+    wf_nested_ n c T x -> gen_from_nested_to_3d_numpy x = Ok (nested_to_3d x).
+  Proof.
+    intro Hx. destruct (wf_nested_frame n c T x Hx) as [H1 H2].
+    unfold gen_from_nested_to_3d_numpy. rewrite H1, H2, count_true_repeat, Nat.eqb_refl.
+    cbn [negb rbind]. f_equal. unfold nested_to_3d, nested_cells. rewrite !map_map.
+    rewrite <- (map_id (n_rows x)) at 2. apply map_ext. intro row. rewrite !map_map.
+    rewrite <- (map_id row) at 2. apply map_ext. intro s0.
+    rewrite bridge_convert_series_cell_to_numpy. reflexivity.
+  Qed.
+
+  (* -------------------------------------------------------------------------------------------- *)
+  (* nested -> multi-index frame, instance by instance *)
+
+  Lemma fold_append {A I} (F : list A -> I -> list A) (f : I -> A) l acc :
+    (forall a i, F a i = a ++ [f i]) -> fold_left F l acc = acc ++ map f l.
+  Proof.
+    intro HF. revert acc. induction l as [|i l IH]; intro acc; cbn [fold_left map].
+    - rewrite app_nil_r. reflexivity.
+    - rewrite HF, IH, <- app_assoc. reflexivity.
+  Qed.
+
+  Lemma fold_noop {A E} (G : A -> E -> A) l a :
+    (forall a' e, In e l -> G a' e = a') -> fold_left G l a = a.
+  Proof.
+    revert a. induction l as [|e l IH]; intros a H; [reflexivity|]. cbn [fold_left].
+    rewrite H by (left; reflexivity). apply IH. intros a' e' He'. apply H. right. exact He'.
+  Qed.
+
+  Lemma combine_map_l {A B C} (g : A -> C) (a : list A) (b : list B) :
+    combine (map g a) b = map (fun q => (g (fst q), snd q)) (combine a b).
+  Proof.
+    revert b. induction a as [|x a IH]; intros [|y b]; cbn; try reflexivity. f_equal. apply IH.
+  Qed.
+
+  (* visiting the rows of l by label s, s+1, ... = enumerating l *)
+  Lemma ziota_at_enum {A B} (l : list (list A)) (h : Z -> list A -> B) s :
+    map (fun idx => h idx (concat (at_ l (Z.to_nat (idx - s))))) (ziota s (length l)) =
+    map (fun ii => h (fst ii) (snd ii)) (enum_from s l).
+  Proof.
+    revert s. induction l as [|a l IH]; intro s; [reflexivity|].
+    cbn [length ziota map]. rewrite enum_from_cons. cbn [map fst snd]. f_equal.
+    - rewrite Z.sub_diag. cbn. rewrite app_nil_r. reflexivity.
+    - rewrite <- IH. apply map_ext_in. intros idx Hin. apply ziota_In in Hin.
+      replace (Z.to_nat (idx - s)) with (S (Z.to_nat (idx - (s + 1)))) by lia. reflexivity.
+  Qed.
+
+  Lemma map_snd_snd_combine {A B C} (a : list A) (k : B) (r : list C) :
+    length a = length r ->
+    map (fun q : A * (B * C) => snd (snd q)) (combine a (map (fun s => (k, s)) r)) = r.
+  Proof.
+    revert r. induction a as [|x a IH]; intros [|y r] H; cbn in *; try reflexivity; try discriminate.
+    f_equal. apply IH. lia.
+  Qed.
+
+  Lemma bridge_from_nested_to_multi_index n c T x a b :
+    wf_nested_ n c T x -> gen_from_nested_to_multi_index x a b = Ok (nested_to_mi x).
+  Proof.
+    intro Hx. destruct (wf_nested_frame n c T x Hx) as [H1 H2]. destruct Hx as [Hwf Hc].
+    unfold gen_from_nested_to_multi_index. rewrite H1, H2. cbn [negb]. f_equal.
+    set (f := fun idx : Z =>
+           let inst := concat (at_ (n_rows x) (Z.to_nat (idx - 0))) in
+           @block_rows V (length (hd [] inst)) (idx, inst)).
+    rewrite (fold_append _ f).
+    - assert (Hids : (if is_none a then nested_index_unique x else nested_index_unique x) =
+                     ziota 0 (length (n_rows x))) by (destruct a; reflexivity).
+      rewrite Hids. cbn [app]. unfold mi_of_rows, pd_concat_rows, nested_to_mi. f_equal.
+      rewrite flat_map_concat_map. f_equal. unfold f.
+      rewrite (ziota_at_enum (n_rows x) (fun idx inst => @block_rows V (length (hd [] inst)) (idx, inst)) 0).
+      rewrite enum_enum_from. apply map_ext. intros [i inst]. reflexivity.
+    - intros acc idx. cbv zeta. f_equal. f_equal. unfold f. cbv zeta. rewrite Z.sub_0_r.
+      set (inst := concat (at_ (n_rows x) (Z.to_nat idx))).
+      (* the cells of row idx, as Series *)
+      assert (Hsers : map cell_values
+                        (map (mk_cell KSeries)
+                           (map (fun '(_, _val) =>
+                                   if cell_is_series _val then cell_values _val else cell_values _val)
+                              (nested_loc_row_items x idx))) = inst \/ inst = []).
+      { unfold nested_loc_row_items. fold inst. rewrite !map_map.
+        destruct (at_ (n_rows x) (Z.to_nat idx)) as [|r [|? ?]] eqn:E.
+        - right. reflexivity.
+        - left. assert (Hin : In r (n_rows x)).
+          { unfold at_ in E. destruct (nth_error (n_rows x) (Z.to_nat idx)) eqn:E2; [|discriminate].
+            inversion E; subst. eapply nth_error_In. exact E2. }
+          destruct (wf_inst n c T _ Hwf r Hin) as [Hl _].
+          subst inst. cbn [concat]. rewrite app_nil_r.
+          rewrite (map_ext _ (fun q : name * @ncell V => snd (snd q))).
+          2:{ intros [lab [k s0]]. cbn. destruct (cell_is_series (k, s0)); reflexivity. }
+          apply map_snd_snd_combine. lia.
+        - exfalso. unfold at_ in E. destruct (nth_error (n_rows x) (Z.to_nat idx)); discriminate. }
+      destruct Hsers as [Hsers | Hnil].
+      + rewrite Hsers. unfold pd_concat_axis1.
+        rewrite fold_noop.
+        2:{ intros blk [j is_n] Hin. unfold py_enumerate in Hin. apply in_combine_r in Hin.
+            apply repeat_spec in Hin. subst is_n. reflexivity. }
+        unfold block_set_index, mi_from_product2, block_index, block_rows. cbn [flat_map].
+        rewrite app_nil_r, transpose_length, combine_map_l. cbn [fst snd].
+        unfold enum. rewrite transpose_length. reflexivity.
+      + (* no such row: both sides are empty *)
+        assert (Hs0 : map cell_values
+                        (map (mk_cell KSeries)
+                           (map (fun '(_, _val) =>
+                                   if cell_is_series _val then cell_values _val else cell_values _val)
+                              (nested_loc_row_items x idx))) = []).
+        { unfold nested_loc_row_items. fold inst. rewrite Hnil. cbn [map].
+          destruct (n_cols x); reflexivity. }
+        rewrite Hs0, Hnil. unfold pd_concat_axis1. cbn [hd length transpose].
+        rewrite fold_noop.
+        2:{ intros blk [j is_n] Hin. unfold py_enumerate in Hin. apply in_combine_r in Hin.
+            apply repeat_spec in Hin. subst is_n. reflexivity. }
+        reflexivity.
+  Qed.
+
+  (* -------------------------------------------------------------------------------------------- *)
+  (* nested -> long table: one block of rows per column *)
+
+  Lemma at_map {A B} (g : A -> B) l j : at_ (map g l) j = map g (at_ l j).
+  Proof.
+    unfold at_. revert j. induction l as [|a l IH]; intros [|j]; cbn; try reflexivity. apply IH.
+  Qed.
+
+  Lemma at_combine {A B} (a : list A) (b : list B) j :
+    at_ (combine a b) j = combine (at_ a j) (at_ b j).
+  Proof.
+    unfold at_. revert b j. induction a as [|x a IH]; intros [|y b] [|j]; cbn; try reflexivity.
+    - destruct (nth_error a j); reflexivity.
+    - apply IH.
+  Qed.
+
+  Lemma at_some {A} (l : list A) j : (j < length l)%nat -> exists v, at_ l j = [v].
+  Proof.
+    unfold at_. revert j. induction l as [|a l IH]; intros j H; cbn in H; [lia|].
+    destruct j; [exists a; reflexivity|]. cbn. apply IH. lia.
+  Qed.
+
+  Lemma at_enumerate_from {A} (l : list A) j e s :
+    In (j, e) (combine (seq s (length l)) l) ->
+    (s <= j)%nat /\ at_ l (j - s) = [e] /\ (j - s < length l)%nat.
+  Proof.
+    unfold at_. revert s. induction l as [|a l IH]; intros s H; [destruct H|]. cbn in H.
+    destruct H as [H|H].
+    - inversion H; subst. rewrite Nat.sub_diag. cbn. repeat split; lia.
+    - destruct (IH (S s) H) as [H1 [H2 H3]]. replace (j - s)%nat with (S (j - S s)) by lia.
+      cbn. repeat split; [lia|exact H2|lia].
+  Qed.
+
+  Lemma at_enumerate {A} (l : list A) j e :
+    In (j, e) (py_enumerate l) -> at_ l j = [e] /\ (j < length l)%nat.
+  Proof.
+    intro H. destruct (at_enumerate_from l j e 0 H) as [_ [H2 H3]]. rewrite Nat.sub_0_r in *.
+    split; assumption.
+  Qed.
+
+  Lemma melt_by_columns m :
+    (forall r, In r (m_rows m) -> length (snd r) = length (m_cols m)) ->
+    long_concat (map (fun '(j, label) =>
+                        ids_assign (mi_index_frame m) (repeat label (length (mi_index_frame m)))
+                                   (mi_col_values m j))
+                     (py_enumerate (mi_columns m))) = mi_melt m.
+  Proof.
+    intro Hw. unfold long_concat, mi_melt. f_equal. rewrite transpose_at.
+    unfold mi_columns. unfold py_enumerate at 1.
+    rewrite <- (map_fst_combine (seq 0 (length (m_cols m))) (m_cols m)) at 2 by apply seq_length.
+    rewrite map_map. apply map_ext_in. intros [j label] Hin. cbn [fst].
+    destruct (at_enumerate _ _ _ Hin) as [Hlab Hj].
+    unfold tagged. rewrite flat_map_map. unfold mi_index_frame, mi_col_values. rewrite map_length.
+    induction (m_rows m) as [|r rows IH]; [reflexivity|]. cbn [map length repeat flat_map].
+    assert (Hr : length (snd r) = length (m_cols m)) by (apply Hw; left; reflexivity).
+    destruct (at_some (snd r) j) as [v Hv]; [lia|].
+    rewrite at_map, at_combine, Hlab, Hv. cbn [combine map app].
+    unfold ids_assign in *. cbn [combine map app]. f_equal.
+    apply IH. intros r' Hr'. apply Hw. right. exact Hr'.
+  Qed.
+
+  Lemma bridge_from_nested_to_long n c T x :
+    wf_nested_ n c T x -> gen_from_nested_to_long x = Ok (nested_to_long x).
+  Proof.
+    intro Hx. unfold gen_from_nested_to_long.
+    rewrite (bridge_from_nested_to_multi_index n c T x _ _ Hx). cbn [rbind]. f_equal.
+    unfold nested_to_long. apply melt_by_columns.
+    destruct Hx as [Hwf Hc]. destruct x as [k cols rows]. cbn [n_rows n_cols] in *.
+    rewrite (nested_to_mi_eq n c T rows Hwf). cbn [m_rows m_cols]. intros r Hr.
+    rewrite Hc. apply (mi_rows_width n c T rows Hwf r Hr).
+  Qed.
 End Bridge.
